@@ -271,3 +271,10 @@ mod tests {
         assert!(store.checkin(v6_addr, valid_token));
     }
 }
+
+// Verification harnesses (compiled only by `cargo kani`; inert otherwise).
+#[cfg(kani)]
+#[allow(dead_code, unused_imports)]
+mod verif {
+    include!(concat!(env!("BTDHT_VERIF"), "/harness/token.rs"));
+}
